@@ -55,6 +55,16 @@ func corrupt(r *rand.Rand, data []byte, maxPos int, f func(tag string, d []byte)
 		}
 		positions = append(keep, positions[:maxPos]...)
 	}
+	// offset tables: make neighbouring words equal (zero-length spans)
+	for _, p := range positions {
+		for _, q := range []int{p + 4, p - 4} {
+			if q >= 0 && q+4 <= n {
+				d := cp()
+				copy(d[p:p+4], data[q:q+4])
+				f("dup", d)
+			}
+		}
+	}
 	for _, p := range positions {
 		w := binary.LittleEndian.Uint32(data[p:])
 		for _, nw := range []uint32{w + 1, w - 1, w + 4, w - 4, 0, uint32(n), uint32(n) + 1, r.Uint32() % uint32(n+8), 0xfffffffc, r.Uint32()} {
@@ -118,6 +128,59 @@ func allStrings(alpha []byte, maxLen int, f func(d []byte)) {
 	rec(nil)
 }
 
+// offsetTables enumerates byte strings that consist of a table of `count` offset words
+// followed by a short payload: every combination of offsets near the canonical values.
+func offsetTables(count int, maxPayload int, f func(d []byte)) {
+	base := uint32(4 * count)
+	cands := []uint32{0, base - 4, base, base + 1, base + 2, base + 3, base + 4, base + 5}
+	payloadBytes := []byte{0x00, 0x01, 0x02, 0x03, 0xff}
+	var payloads [][]byte
+	var rec func(cur []byte)
+	rec = func(cur []byte) {
+		payloads = append(payloads, append([]byte{}, cur...))
+		if len(cur) == maxPayload {
+			return
+		}
+		for _, b := range payloadBytes {
+			rec(append(cur, b))
+		}
+	}
+	rec(nil)
+	offs := make([]uint32, count)
+	var recO func(k int)
+	recO = func(k int) {
+		if k == count {
+			for _, pl := range payloads {
+				d := make([]byte, 4*count, 4*count+len(pl))
+				for i, o := range offs {
+					binary.LittleEndian.PutUint32(d[4*i:], o)
+				}
+				f(append(d, pl...))
+			}
+			return
+		}
+		for _, c := range cands {
+			offs[k] = c
+			recO(k + 1)
+		}
+	}
+	recO(0)
+}
+
+func varSeriesTypes() []*Ty {
+	u8 := &Ty{Kind: "u", N: 1}
+	return []*Ty{
+		{Kind: "list", Elem: &Ty{Kind: "bitlist", N: 8}, N: 4},
+		{Kind: "list", Elem: &Ty{Kind: "list", Elem: u8, N: 3}, N: 4},
+		{Kind: "list", Elem: &Ty{Kind: "union", None: true, Fields: []*Ty{u8}}, N: 4},
+		{Kind: "list", Elem: &Ty{Kind: "cont", Fields: []*Ty{{Kind: "list", Elem: u8, N: 2}}}, N: 4},
+		{Kind: "vec", Elem: &Ty{Kind: "bitlist", N: 8}, N: 2},
+		{Kind: "vec", Elem: &Ty{Kind: "list", Elem: u8, N: 3}, N: 3},
+		{Kind: "cont", Fields: []*Ty{{Kind: "bitlist", N: 8}, {Kind: "list", Elem: u8, N: 3}}},
+		{Kind: "cont", Fields: []*Ty{{Kind: "list", Elem: u8, N: 3}, {Kind: "bitlist", N: 8}, {Kind: "union", None: true, Fields: []*Ty{u8}}}},
+	}
+}
+
 func smallTypes() []*Ty {
 	u8 := &Ty{Kind: "u", N: 1}
 	u16 := &Ty{Kind: "u", N: 2}
@@ -173,6 +236,16 @@ func TestC03(t *testing.T) {
 			}
 		}
 		allStrings(alpha, aLen, func(d []byte) { do("exa", ty, d) })
+	}
+	// offset tables of 1..3 words with short payloads, for series of variable-size elements
+	for _, ty := range varSeriesTypes() {
+		maxC, maxP := 2, 3
+		if thorough() {
+			maxC, maxP = 3, 4
+		}
+		for c := 1; c <= maxC; c++ {
+			offsetTables(c, maxP, func(d []byte) { do("offtab", ty, d) })
+		}
 	}
 	// leaf types at exactly their size (valid + bool 2)
 	n := 260
